@@ -250,6 +250,18 @@ type WPtrTimes struct {
 	F *time.Time
 }
 
+// an embedded struct with a field of the same Avro name as an outer field declared before it (the embedded struct is a
+// field of its own, named after its type; nothing is promoted)
+type EmbClashInner struct {
+	X int64  `json:"x"`
+	Y string `json:"y"`
+}
+type WEmbedClash struct {
+	X int64 `json:"x"`
+	EmbClashInner
+	Y string `json:"y"`
+}
+
 // Avro names are case-sensitive: fields whose names differ only in case are different fields
 type WCase struct {
 	Id   int64  `json:"Id"`
@@ -374,6 +386,7 @@ func witnessCases() []witness {
 			n1, n2, ns := null.TimeFrom(t2), null.TimeFrom(t3), null.StringFrom("str")
 			return vals(WPtrTimes{&t1, &t2, &n1, &n2, &ns, &t3}, WPtrTimes{A: &t3, C: &n2}, WPtrTimes{&t2, &t1, &n2, &n1, &ns, &t1})(c)
 		}},
+		{staticOf[WEmbedClash]("embedded-struct-same-field-names"), vals(WEmbedClash{1, EmbClashInner{2, "in"}, "out"}, WEmbedClash{-1, EmbClashInner{0, ""}, ""}, WEmbedClash{0, EmbClashInner{7, "z"}, "q"})},
 		{staticOf[WTwice]("struct-twice"), vals(WTwice{SInner{1, "a"}, SInner{2, "b"}})},
 	}
 }
